@@ -290,9 +290,13 @@ impl<'a> GlyphPatches<'a> {
         table_index: usize,
     ) -> impl Iterator<Item = Result<(GlyphId, &'a [u8]), ReadError>> {
         let glyph_count = self.glyph_count() as usize;
-        let start_index = table_index * glyph_count;
+        // A table index beyond the offsets array selects nothing.
+        let start_index = table_index.saturating_mul(glyph_count);
         let start_it = self.glyph_data_offsets().iter().skip(start_index);
-        let end_it = self.glyph_data_offsets().iter().skip(start_index + 1);
+        let end_it = self
+            .glyph_data_offsets()
+            .iter()
+            .skip(start_index.saturating_add(1));
         let glyphs = self.glyph_ids().iter().take(glyph_count);
 
         let it = glyphs.zip(start_it.zip(end_it)).map(|(gid, (start, end))| {
@@ -747,5 +751,20 @@ mod tests {
             panic!("Expected to fail.");
         };
         assert_eq!(ReadError::OutOfBounds, err);
+    }
+
+    /// `table_index * glyph_count` and `+ 1` used to overflow for a caller
+    /// supplied table index near `usize::MAX`.
+    #[test]
+    fn glyph_data_for_table_index_near_usize_max() {
+        let one_glyph: &[u8] = &[0, 0, 0, 1, 0, 0, 5, 0, 0, 0, 0, 0];
+        let two_glyphs: &[u8] = &[
+            0, 0, 0, 2, 0, 0, 5, 0, 6, 0, 0, 0, 0, 0, 0, 0, 0, 0, 0, 0, 0,
+        ];
+        for (data, table_index) in [(one_glyph, usize::MAX), (two_glyphs, 1 << 63)] {
+            let patches =
+                GlyphPatches::read_with_args(FontData::new(data), &GlyphKeyedFlags::NONE).unwrap();
+            assert_eq!(patches.glyph_data_for_table(table_index).count(), 0);
+        }
     }
 }
